@@ -9,6 +9,7 @@ from pydantic import BaseModel, ConfigDict, Field, ValidationInfo, field_validat
 from rtflite.row import (
     BORDER_CODES,
     FORMAT_CODES,
+    ROW_JUSTIFICATION_CODES,
     TEXT_JUSTIFICATION_CODES,
     VERTICAL_ALIGNMENT_CODES,
     Border,
@@ -569,7 +570,7 @@ class TableAttributes(TextAttributes):
 
         for row in v:
             for justification in row:
-                if justification not in TEXT_JUSTIFICATION_CODES:
+                if justification not in ROW_JUSTIFICATION_CODES:
                     raise ValueError(f"Invalid cell justification: {justification}")
         return v
 
